@@ -636,6 +636,40 @@ def script(t0: int, d: int, pn0: int, pc0: int, pn1: int, pc1: int, pn2: int, pc
         return dup_release_rollback(steps)
 
 
+def script_positioned(t0: int, pn0: int, pc0: int, pn1: int, pc1: int, k: int,
+                      o0: int, n0: int, f0: bool, o1: int, n1: int, f1: bool) -> bool:
+    """A transaction whose backend has been *positioned* on savepoints: START; [change pc0]; SAVEPOINT a;
+    ROLLBACK TO a; change pc1 (compiled while the server sits on a: the compiler syncs to a); SAVEPOINT b;
+    ROLLBACK TO b; then k <= 2 free statements (the first one is compiled while the server sits on b).
+    Returning to an earlier savepoint after the compiler has synchronised to a later one exercises the pruning
+    of the savepoint log in sync_to_savepoint."""
+    pn0, pc0 = concrete_index(pn0, 4), concrete_index(pc0, 4)
+    pn1, pc1 = concrete_index(pn1, 4), concrete_index(pc1, 4)
+    k = concrete_index(k, 3)
+    if min(pn0, pc0, pn1, pc1, k) < 0 or pc1 == 0:
+        return True
+    suf = []
+    for o, n, f in ((o0, n0, f0), (o1, n1, f1)):
+        if len(suf) >= k:
+            break
+        a = concrete_index(o, 9)
+        b = concrete_index(n, 4) if a in (SAVEPOINT, RELEASE, ROLLBACK_TO) else 0
+        if a < 0 or b < 0:
+            return True
+        fault = concrete_bool(f) if a in (SET_CONFIG, DDL) else False
+        suf.append((a, b, fault))
+    change = {1: SET_ALIAS, 2: SET_CONFIG, 3: DDL}
+    steps = [(START, 0, False)]
+    if pc0:
+        steps.append((change[pc0], 0, False))
+    steps += [(SAVEPOINT, pn0, False), (ROLLBACK_TO, pn0, False), (change[pc1], 0, False),
+              (SAVEPOINT, pn1, False), (ROLLBACK_TO, pn1, False)] + suf
+    with untraced():
+        if run_steps(t0, steps):
+            return True
+        return dup_release_rollback(steps)
+
+
 def script_raw(t0: int, d: int, pn0: int, pc0: int, pn1: int, pc1: int, pn2: int, pc2: int,
                k: int, o0: int, n0: int, f0: bool, o1: int, n1: int, f1: bool,
                o2: int, n2: int, f2: bool, o3: int, n3: int, f3: bool) -> bool:
